@@ -68,7 +68,7 @@ class KroneckerProductLinearOperator(LinearOperator):
     :param linear_ops: :math:`\boldsymbol K_1, \ldots, \boldsymbol K_P`: the LinearOperators in the Kronecker product.
     """
 
-    def __init__(self, *linear_ops: Union[Float[Tensor, "... #M #N"], Float[LinearOperator, "... #M #N"]]):
+    def __init__(self, *linear_ops: Union[Float[Tensor, "... #M #N"], Float[LinearOperator, "... #M #N"]], **kwargs):
         try:
             linear_ops = tuple(to_linear_operator(linear_op) for linear_op in linear_ops)
         except TypeError:
@@ -92,7 +92,8 @@ class KroneckerProductLinearOperator(LinearOperator):
                 for linear_op in linear_ops
             )
 
-        super().__init__(*linear_ops)
+        # (kwargs: non-tensor constructor arguments of subclasses, e.g. `upper`, that must survive copies / rebuilds)
+        super().__init__(*linear_ops, **kwargs)
         self.linear_ops = linear_ops
 
     def __add__(
@@ -192,7 +193,9 @@ class KroneckerProductLinearOperator(LinearOperator):
     def _expand_batch(
         self: Float[LinearOperator, "... M N"], batch_shape: Union[torch.Size, List[int]]
     ) -> Float[LinearOperator, "... M N"]:
-        return self.__class__(*[linear_op._expand_batch(batch_shape) for linear_op in self.linear_ops])
+        return self.__class__(
+            *[linear_op._expand_batch(batch_shape) for linear_op in self.linear_ops], **self._kwargs
+        )
 
     def _get_indices(self, row_index: IndexType, col_index: IndexType, *batch_indices: IndexType) -> torch.Tensor:
         row_factor = self.size(-2)
@@ -380,8 +383,14 @@ class KroneckerProductTriangularLinearOperator(KroneckerProductLinearOperator, _
             raise RuntimeError(
                 "Components of KroneckerProductTriangularLinearOperator must be TriangularLinearOperator."
             )
-        super().__init__(*linear_ops)
+        super().__init__(*linear_ops, upper=upper)
         self.upper = upper
+
+    def _transpose_nonbatch(self: Float[LinearOperator, "*batch M N"]) -> Float[LinearOperator, "*batch N M"]:
+        # transposition flips the triangle
+        return self.__class__(
+            *(linear_op._transpose_nonbatch() for linear_op in self.linear_ops), upper=not self.upper
+        )
 
     @cached
     def inverse(self: Float[LinearOperator, "*batch N N"]) -> Float[LinearOperator, "*batch N N"]:
